@@ -245,13 +245,22 @@ func forNud(p *parser, t *token) *token {
 		return t
 	}
 
-	t.Append(first)
+	t.Append(asStatement(first))
 	p.Advance(";")
 	t.Append(p.Expression(0, "{"))
 	p.Advance(";")
-	t.Append(p.Expression(0, "{"))
+	t.Append(asStatement(p.Expression(0, "{")))
 	t.Append(p.Block("block", "{", "}"))
 	return t
+}
+
+// asStatement applies the statement rule (a bare call requests no results)
+// to a statement that was parsed as an expression.
+func asStatement(tok *token) *token {
+	if tok != nil && tok.Symbol == "call" {
+		tok.Tokens[2].Text = "0"
+	}
+	return tok
 }
 
 // func variadicNud(p *parser, t *token) *token {
